@@ -12,3 +12,7 @@ import MJ.Props.C11
 #print axioms MJ.C11.unbounded_recursion_errors
 #print axioms MJ.C11.limit_clamped
 #print axioms MJ.C11.reentry_sites_guarded
+#print axioms MJ.C11.stack_le_weighted
+#print axioms MJ.C11.reach_blocks
+#print axioms MJ.C11.C11_counterexample
+#print axioms MJ.C11.C11_partial
